@@ -67,6 +67,21 @@ CHECKS = {
             'authentication and on random multi-connection two-user programs; an independent Python reference map and a before/after dump of all stores around unauthenticated script commands are the monitors.',
             'Trusted: as C05. The sieve compiler is an oracle (CHECKSCRIPT).',
             'DESIGN.md section 6 C19'),
+    'C11': ('Lean 4 theorems over the namespace model (wildcard matcher, ListTree entries, create/delete/rename with object identities) + differential correspondence + EXAMINE-based existence monitor',
+            'C11_star_all, C11_pct, C11_literal (incl. names with LF), C11_list, C11_inbox_guard, C11_errors_unchanged, C11_conflicts, C11_rename (objects move with their ids), C11_rename_inbox (inferiors of INBOX stay) are proved in Lean. '
+            'Tie: OK/NO of every CREATE/DELETE/RENAME and the exact LIST entry set are diffed between the real dict server and the Namespace model; the compiled LIST pattern is diffed with Namespace.wild on short pattern/name pairs '
+            '(exhaustive in the thorough tier). Monitor on dict and both maildir layouts: existence is re-established by EXAMINE over the whole name universe after every command; LIST, conflicts, guards, rename identity '
+            '(UIDVALIDITY/UIDNEXT/messages) and modified-UTF-7 spelling are checked against an RFC matcher written from the RFC.',
+            'Trusted: Lean kernel, axioms propext/Classical.choice/Quot.sound, the harness; Python re engine (pinned by the L1 diff). Known findings D28 (LSUB), D17b (maildir RENAME INBOX), D40 (Inbox/x superior). '
+            'Which superiors CREATE makes real and whether DELETE of a parent is refused are backend-specific and left free.',
+            'DESIGN.md section 6 C11'),
+    'C08': ('Lean 4 theorems over a lexical path model of the maildir layouts + OS-call recording on the real backend',
+            'C08_confined_default / C08_confined_fs: for every base directory and every name accepted by the validator, the lexically resolved path is a strict extension of the user directory; C08_escape_as_found records the escapes '
+            'of the code as found. Tie: for every hostile name the real backend must refuse exactly what the Layout model refuses and create the maildir where the model says. Monitor: all path arguments of os/os.path/shutil/open '
+            'are recorded while every mailbox-taking command runs with every hostile name on both layouts (confinement, never the user directory itself for mutating calls), the other user\'s tree and the password files are hashed '
+            'before/after; dict: bob\'s observations unchanged.',
+            'Trusted: as C11; lexical model only: no symlinks inside the store, no mount points, case-sensitive filesystem; the recorder sees Python-level calls (os, shutil, open), which is all pymap and the mailbox module use.',
+            'DESIGN.md section 6 C08'),
 }
 
 NOT_YET = 'check not built yet in this round (see DESIGN.md section 10 for the build order); nothing is claimed'
